@@ -120,7 +120,8 @@ def decoded_text_from_binary(
     if size is None:
         size = -1
     rawdata = binary_file.read(size)
-    result = rawdata.decode("utf-8", errors="replace")
+    # A byte order mark is not part of the first line.
+    result = rawdata.decode("utf-8-sig", errors="replace")
     # Normalise CRLF and lone CR line endings.
     return result.replace("\r\n", "\n").replace("\r", "\n")
 
